@@ -123,9 +123,9 @@ Qed.
 
 Example multi_example :
   or_free p_two_roots = true /\ topo p_two_roots = true /\ outs_reachable_multi p_two_roots /\
-  candidates p_two_roots g_two_roots 0 = [[0; 1]; [0; 2]] /\
+  candidates flags_fixed p_two_roots g_two_roots 0 = [[0; 1]; [0; 2]] /\
   instanceb g_two_roots p_two_roots [0; 2] s_two_roots = true /\
-  (forall c, In c (candidates p_two_roots g_two_roots 0) -> try_candidate flags_fixed g_two_roots p_two_roots false c <> Err) /\
+  (forall c, In c (candidates flags_fixed p_two_roots g_two_roots 0) -> try_candidate flags_fixed g_two_roots p_two_roots false c <> Err) /\
   exists m, run flags_fixed p_two_roots g_two_roots 0 false = Ok m /\ m_nodes m = [0; 2].
 Proof.
   split; [reflexivity|]. split; [reflexivity|]. split; [apply p_two_roots_reachable|].
